@@ -47,6 +47,8 @@ type FuncContract struct {
 	Where    string
 	Requires []*Clause
 	Ensures  []*Clause
+	LoopDecr   *Clause // default variant of every non-range loop (loopdecr E, from a template)
+	TermAssume *Clause // hypothesis under which the variants are proved (termassume E)
 	GhostDefs []*Clause // ghost updates performed at every return: defines <ghost> = expr
 	Exits    []*Clause // exit assertions: checked at every return where their locals are live; not part of the callers' view
 	Modifies []*Clause
@@ -123,7 +125,7 @@ func newContracts() *Contracts {
 }
 
 var clauseKeywords = map[string]bool{
-	"spec": true, "pred": true, "axiom": true, "ghost": true, "func": true, "requires": true, "ensures": true, "exit": true, "defines": true,
+	"spec": true, "pred": true, "axiom": true, "ghost": true, "func": true, "requires": true, "ensures": true, "exit": true, "defines": true, "termassume": true, "loopdecr": true,
 	"modifies": true, "use": true, "decreases": true, "inline": true, "trusted": true, "loop": true, "end": true,
 	"invariant": true, "package": true, "fnparam": true, "nullable": true, "pure": true, "nobody": true, "gaxiom": true, "useret": true, "implements": true, "define": true, "transition": true, "include": true, "loopinv": true, "params": true,
 }
@@ -424,6 +426,24 @@ func (cs *Contracts) loadFile(path string, goFile bool) error {
 				return err
 			}
 			curLoop.Transitions = append(curLoop.Transitions, c)
+		case "loopdecr":
+			if cur == nil {
+				return fail(fmt.Errorf("loopdecr outside func"))
+			}
+			c, err := mkClause("decreases")
+			if err != nil {
+				return err
+			}
+			cur.LoopDecr = c
+		case "termassume":
+			if cur == nil {
+				return fail(fmt.Errorf("termassume outside func"))
+			}
+			c, err := mkClause("termassume")
+			if err != nil {
+				return err
+			}
+			cur.TermAssume = c
 		case "defines":
 			if cur == nil {
 				return fail(fmt.Errorf("defines outside func"))
@@ -517,6 +537,12 @@ func loadContracts(repo string, specDir string) (*Contracts, error) {
 			fc.Modifies = append(append([]*Clause{}, t.Modifies...), fc.Modifies...)
 			fc.Uses = append(append([]*Clause{}, t.Uses...), fc.Uses...)
 			fc.LoopInvs = append(append([]*Clause{}, t.LoopInvs...), fc.LoopInvs...)
+			if fc.LoopDecr == nil {
+				fc.LoopDecr = t.LoopDecr
+			}
+			if fc.TermAssume == nil {
+				fc.TermAssume = t.TermAssume
+			}
 		}
 	}
 	for _, fc := range cs.Funcs {
@@ -552,6 +578,9 @@ func (fc *FuncContract) propsOf() map[string]bool {
 		if l.Decreases != nil {
 			add([]*Clause{l.Decreases})
 		}
+	}
+	if fc.LoopDecr != nil {
+		add([]*Clause{fc.LoopDecr})
 	}
 	if fc.Decr != nil {
 		add([]*Clause{fc.Decr})
